@@ -108,7 +108,7 @@ def cases(tier, seed, focus):
     reps = [{"kind": "repeat", "models": [{"mseed": seed * 100003 + 50000 + 2 * i + j, "opts": GEN} for j in range(2)], "config": i % len(CONFIGS),
              "tags": ["C09:repeat", "C09:history-dependent-output"]} for i in range(nrep)]
     # interleave: cheap in-process kinds first, the file cases early
-    streams = [iter(hist), iter(filecases), iter(gens), iter(reps)]
+    streams = [iter(hist), iter(filecases), iter(gens[0::2]), iter(reps), iter(gens[1::2])]
     while streams:
         for s in list(streams):
             c = next(s, None)
